@@ -97,10 +97,16 @@ def box_point(ex, p, prefix, concrete=None):
     return pt
 
 
-def call(mods, p, pt):
+def call(mods, p, pt, buf=None):
     T = mods['trial']
     fv = T.FunctionValue()
-    arr = shims.SArr(list(pt), 'f') if any(isinstance(v, Sym) for v in pt) else np.array([float(v) for v in pt], dtype=np.double)
+    if buf is not None:
+        # the caller re-uses ONE array for all its points and overwrites it in place
+        for i, v in enumerate(pt):
+            buf[i] = v
+        arr = buf
+    else:
+        arr = shims.SArr(list(pt), 'f') if any(isinstance(v, Sym) for v in pt) else np.array([float(v) for v in pt], dtype=np.double)
     before = [core.rval(v) if isinstance(v, Sym) else float(v) for v in arr]
     point = T.Point(arr, [])
     out = p.Calculate(point, fv)
@@ -164,13 +170,20 @@ def pure_job(family, fn, variant, symbolic=True):
         if not symbolic:
             ref = clean_reference(mods, family, [(fn, x), (sibling_id(family, fn), x), (sibling_id(family, fn), x2)])
         s0, t0 = snap(P), tables(mods)
-        r1, h1, same1 = call(mods, P, x)
+        buf = None
+        if variant == 'reused-buffer':
+            buf = shims.SArr([0.0] * len(x), 'f') if symbolic else np.zeros(len(x), dtype=np.double)
+        r1, h1, same1 = call(mods, P, x, buf)
         v1 = h1.value
         ex.prove(r1 is h1, 'C15 HOLDER: Calculate returns the supplied value holder', d)
         ex.prove(same1, 'C15 POINT: the evaluation does not modify the point', d)
         # interference
-        call(mods, S, x2)
+        call(mods, S, x2, buf)
         call(mods, O, box_point(ex, O, 'o', (0.41,)))
+        if variant in ('at-optimum', 'reused-buffer'):
+            xo = [float(v) for v in P.knownOptimum[0].point.floatVariables]
+            call(mods, P, xo, buf)              # an evaluation exactly at the declared optimum in between
+            call(mods, P, x2, buf)
         if variant in ('full', 'partial'):
             call(mods, P, x2)
         if variant == 'partial' and len(x) > 1:
@@ -182,7 +195,7 @@ def pure_job(family, fn, variant, symbolic=True):
                 ex.prove(float(vs) == ref[1], 'C15 HISTORY: the value does not depend on which other instances were evaluated before (clean-process reference)', d)
         if ref is not None:
             ex.prove(float(v1) == ref[0], 'C15 HISTORY: the value does not depend on which other instances were evaluated before (clean-process reference)', d)
-        r2, h2, same2 = call(mods, P, x)
+        r2, h2, same2 = call(mods, P, x, buf)
         ex.prove(r2 is h2 and h2 is not h1, 'C15 HOLDER: a repeated evaluation fills the newly supplied holder', d)
         ex.prove(eq(v1, h2.value), 'C15 SAME: evaluating the same point again gives the same value whatever happened in between', d)
         ex.prove(eq(v1, h1.value), 'C15 KEPT: the holder of the first evaluation still holds its value', d)
@@ -228,8 +241,14 @@ dx = (0.3137, 0.6291, 0.1173, 0.8467, 0.5519); dy = (0.7713, 0.2239, 0.9017, 0.4
 x = [num('x%%d' %% c, lo[c] + (up[c] - lo[c]) * dx[c %% 5]) for c in range(len(lo))]
 y = [num('y%%d' %% c, lo[c] + (up[c] - lo[c]) * dy[c %% 5]) for c in range(len(lo))]
 bad = []
+BUF = np.zeros(len(lo), dtype=np.double) if variant == 'reused-buffer' else None
 def call(p, pt):
-    fv = FunctionValue(); arr = np.array(pt, dtype=np.double); keep = arr.copy()
+    fv = FunctionValue()
+    if BUF is not None:
+        BUF[:] = pt; arr = BUF
+    else:
+        arr = np.array(pt, dtype=np.double)
+    keep = arr.copy()
     out = p.Calculate(Point(arr, []), fv)
     if list(arr) != list(keep): bad.append('C15 POINT: Calculate modified the point %%r -> %%r' %% (list(keep), list(arr)))
     return out, fv
@@ -240,6 +259,8 @@ s0 = state(P)
 r1, h1 = call(P, x); v1 = h1.value
 if r1 is not h1: bad.append('C15 HOLDER: Calculate did not return the supplied holder')
 call(S, y); call(O, [float(O.lowerBoundOfFloatVariables[0]) + 0.41 * (float(O.upperBoundOfFloatVariables[0]) - float(O.lowerBoundOfFloatVariables[0]))])
+if variant in ('at-optimum', 'reused-buffer'):
+    call(P, [float(v) for v in P.knownOptimum[0].point.floatVariables]); call(P, y)
 if variant in ('full', 'partial'): call(P, y)
 if variant == 'partial' and len(x) > 1:
     call(S, [y[0]] + x[1:]); call(P, [x[0]] + y[1:])
@@ -280,12 +301,12 @@ def main():
            'rastrigin': [1, 2, 3] if quick else [1, 2, 3, 4, 5], 'xsquared': [1, 3] if quick else [1, 2, 3, 4, 5], 'stronginC3': [0]}
     for fam in FAMS:
         for fn in ids[fam]:
-            for variant in ('short', 'full', 'partial', 'sibling-same-point'):
+            for variant in ('short', 'full', 'partial', 'sibling-same-point', 'at-optimum', 'reused-buffer'):
                 jobs.append((pure_job, (fam, fn, variant, False)))
-                if fam == 'gkls' and (fn[0] > 2 or variant in ('partial', 'sibling-same-point')):
+                if fam == 'gkls' and (fn[0] > 2 or variant in ('partial', 'sibling-same-point', 'reused-buffer')):
                     continue        # two symbolic points in 3-D GKLS: 10 x 10 ball combinations per call, skipped
                 jobs.append((pure_job, (fam, fn, variant, True)))
-    run.bound(instances={k: len(v) for k, v in ids.items()}, sequences='P(x); S(x\'), O(.), [P(x\')], [S / P with one coordinate kept]; P(x)  -- 4 variants',
+    run.bound(instances={k: len(v) for k, v in ids.items()}, sequences='P(x); S(x\'), O(.), [P(x\')], [S / P with one coordinate kept], [P at its declared optimum], [all through one re-used point array]; P(x)  -- 6 variants',
               points='x, x\' arbitrary points of the box (solver-decided) and one concrete pair per instance')
     run.not_covered('interference sequences longer than the listed ones; GKLS n >= 3 with symbolic points; threads')
     run.parallel(jobs, chunks=2)
